@@ -33,9 +33,9 @@ def bounded_cases(ctx: Ctx):
             dt = "float64"
             if func in ("any", "all"):
                 dt = "bool"
-            elif not func.startswith("nan") and i % 4 == 1:
-                dt = "int64"
-            v = gen.values_for(func, n, rng, 8, dt)[int(rng.integers(0, 8 if dt == "float64" else 2)) % (8 if dt == "float64" else 2)]
+            elif func in ("max", "min", "nanmax", "nanmin", "first", "last", "nanfirst", "nanlast", "argmax", "argmin", "count", "sum", "prod", "mean", "var") and i % 3 == 1:
+                dt = ["int64", "uint8", "int8"][(i // 3) % 3]
+            v = gen.values_for(func, n, rng, 12, dt)[int(rng.integers(0, 12))]
             present = sorted({x for x in lab.tolist() if x == x})
             for ch in chunkings if not ctx.quick else gen.sample(chunkings, 5, rng):
                 i += 1
